@@ -207,6 +207,3 @@ func relevant(o *Oblig, c *Contract, p string) bool {
 	return hasTag(o.Tags, p)
 }
 
-func cmdCheck(args []string) {
-	fatal("check not built yet")
-}
